@@ -142,6 +142,7 @@ func c06Unit(j *Job, u *JobUnit) error {
 				record("resp:"+devClass(p), base, p.Msg, nil)
 				return true
 			})
+
 			// the handler-error family: the text an error may carry (ordinary, empty, non-ASCII with quotes and a newline, long) and
 			// the built-in error message returned as such, filled and empty
 			record("handler_error", base, nil, errors.New("boom"))
